@@ -159,6 +159,7 @@ func GenHistory(r *rand.Rand, o GenOpts) History {
 			f.Atomic = r.Intn(4) == 0
 			f.Cleanup = r.Intn(4) == 0
 			f.NoHooks = r.Intn(6) == 0
+			f.WaitForJobs = r.Intn(3) == 0
 			switch kind {
 			case "install":
 				f.Replace = r.Intn(3) == 0
